@@ -365,24 +365,21 @@ func (r *Run) Finish() int {
 	reported := 0
 	unconfirmed := 0
 	replayDir := filepath.Join(r.Cfg.VerifDir, "replays", r.Cfg.Prop)
-	seenSig := map[string]int{}
+	// group by signature (scenario, facet, deviation), keeping canonical order inside each group
+	var sigOrder []string
+	groups := map[string][]*failRec{}
 	for _, fr := range unmatched {
 		sig := fr.Scenario + "|" + fr.Fail.Facet + "|" + fr.Fail.Dev
-		seenSig[sig]++
-		if seenSig[sig] > 3 || reported >= maxReport {
-			r.violations++
-			continue
+		if _, ok := groups[sig]; !ok {
+			sigOrder = append(sigOrder, sig)
 		}
-		ok, note := true, ""
-		if !r.Cfg.Triage {
-			ok, note = r.confirm(fr)
-		}
-		if !ok {
-			unconfirmed++
-			fmt.Printf("NOTE: unconfirmed failure (not reported as violation): %s [%s] %s: %s\n", fr.Key, fr.Fail.Facet, fr.Fail.Dev, note)
-			continue
-		}
+		groups[sig] = append(groups[sig], fr)
+	}
+	report := func(fr *failRec, note string) {
 		r.violations++
+		if reported >= maxReport {
+			return
+		}
 		reported++
 		os.MkdirAll(replayDir, 0o755)
 		name := Sha([]byte(fr.Scenario + "|" + fr.Key + "|" + fr.Fail.Facet))
@@ -397,6 +394,59 @@ func (r *Run) Finish() int {
 		}
 		fmt.Printf("VIOLATION property=%s replay=%s\n", r.Cfg.Prop, path)
 		fmt.Printf("  case: %s\n  facet=%s deviation=%s\n  %s\n", oneLine(fr.Key), fr.Fail.Facet, fr.Fail.Dev, oneLine(fr.Fail.Detail))
+		if note != "" {
+			fmt.Printf("  note: %s\n", note)
+		}
+	}
+	for _, sig := range sigOrder {
+		g := groups[sig]
+		confirmedHere, tried := 0, 0
+		const batch, maxTries, wantConfirmed = 16, 480, 3
+		for tried < len(g) && tried < maxTries && confirmedHere < wantConfirmed {
+			end := tried + batch
+			if end > len(g) {
+				end = len(g)
+			}
+			type cr struct {
+				ok   bool
+				note string
+			}
+			res := make([]cr, end-tried)
+			var wg sync.WaitGroup
+			for i := tried; i < end; i++ {
+				wg.Add(1)
+				go func(i int) {
+					defer wg.Done()
+					ok, note := r.confirm(g[i])
+					res[i-tried] = cr{ok, note}
+				}(i)
+			}
+			wg.Wait()
+			for i := tried; i < end; i++ {
+				if res[i-tried].ok {
+					if confirmedHere < wantConfirmed {
+						report(g[i], res[i-tried].note)
+					} else {
+						r.violations++
+					}
+					confirmedHere++
+				} else {
+					unconfirmed++
+					if unconfirmed <= 6 {
+						fmt.Printf("NOTE: unconfirmed failure (not reported as violation): %s [%s] %s: %s\n", oneLine(g[i].Key), g[i].Fail.Facet, g[i].Fail.Dev, res[i-tried].note)
+					}
+				}
+			}
+			tried = end
+		}
+		if confirmedHere > 0 {
+			r.violations += len(g) - tried // the rest of a confirmed signature is counted without individual confirmation
+		} else if len(g) > tried {
+			unconfirmed += len(g) - tried
+		}
+	}
+	if unconfirmed > 6 {
+		fmt.Printf("NOTE: %d failures in all could not be confirmed on fresh processes (history-dependent behaviour is C10's subject)\n", unconfirmed)
 	}
 	if r.violations > reported {
 		fmt.Printf("(%d further unmatched failures not listed individually; see evidence)\n", r.violations-reported)
